@@ -16,7 +16,11 @@ MASK = (1 << 64) - 1
 
 class Rng:
     def __init__(self, seed):
-        self.s = (seed * 0x9E3779B97F4A7C15 + 0x123456789ABCDEF1) & MASK
+        # scramble the seed first: with a plain affine initialisation consecutive seeds give shifted copies of one stream
+        z = (seed + 0x123456789ABCDEF1) & MASK
+        z = ((z ^ (z >> 33)) * 0xFF51AFD7ED558CCD) & MASK
+        z = ((z ^ (z >> 33)) * 0xC4CEB9FE1A85EC53) & MASK
+        self.s = z ^ (z >> 33)
 
     def next(self):
         self.s = (self.s + 0x9E3779B97F4A7C15) & MASK
@@ -59,7 +63,12 @@ class Gen:
         self.r = rng
         self.cfg = dict(big_lits=True, floats=True, strings=True, lists=True, funcs=True, lambdas=True, loops=True,
                         conds=True, patterns=True, interp=True, zero_div=False, max_depth=4, n_stmts=(3, 10),
-                        hard_strings=False)
+                        hard_strings=False, str_mul=True, bare_expr=False)
+        if cfg.get("stage1"):
+            # the straight-line scalar fragment of the C01 stage-1 theorem
+            self.cfg.update(floats=False, lists=False, funcs=False, lambdas=False, loops=False, conds=False,
+                            patterns=False, interp=False, str_mul=False, bare_expr=True)
+        cfg = {k: v for k, v in cfg.items() if k != "stage1"}
         self.cfg.update(cfg)
         self.vars = []      # (name, ty) visible immutable bindings at top level
         self.funcs = []     # (name, [param tys], ret ty)
@@ -189,14 +198,15 @@ class Gen:
                 c = self.call("Str", d, env)
                 if c:
                     return c
-            if k == 7:
+            if k == 7 and self.cfg["str_mul"]:
                 self.features.add("str-mul")
                 return ("bin", "*", self.expr("Str", d, env), ("lit", "Nat", r.below(4)), "Str")
             return self.lit("Str")
         if ty == "Bool":
             if k < 4:
                 t = r.pick(["Nat", "Int", "Nat", "Int", "Str"] + (["Float"] if self.cfg["floats"] else []))
-                op = r.pick(["==", "!="] if t == "Str" else ["==", "!=", "<", "<=", ">", ">="])
+                # Float has no Eq in Erg (only the order comparisons), Str only ==/!= here
+                op = r.pick(["==", "!="] if t == "Str" else (["<", "<=", ">", ">="] if t == "Float" else ["==", "!=", "<", "<=", ">", ">="]))
                 return ("cmp", op, self.expr(t, d, env), self.expr(t, d, env))
             if k < 6:
                 return ("boolop", r.pick(["and", "or"]), self.expr("Bool", d, env), self.expr("Bool", d, env))
@@ -314,6 +324,8 @@ class Gen:
             e1, e2 = self.expr(t1, 2), self.expr(t2, 2)
             self.vars += [(a, t1), (b, t2)]
             return ("tupdef", [(a, t1), (b, t2)], [e1, e2])
+        if k == 17 and self.cfg["bare_expr"]:
+            return ("exprstmt", self.expr(self.scalar_ty(), 2))
         return ("print", [self.expr(self.any_ty(), D)])
 
     def program(self):
@@ -332,6 +344,14 @@ def erg_ty(t):
     if isinstance(t, tuple):
         return f"List({erg_ty(t[1])}, {t[2]})"
     return t
+
+
+def erg_top(e):
+    """expression without the outer parentheses (needed where `f (x)` would parse as a call)"""
+    s = erg_expr(e)
+    if s.startswith("(") and s.endswith(")") and e[0] in ("bin", "cmp", "boolop", "not", "neg"):
+        return s[1:-1]
+    return s
 
 
 def erg_expr(e):
@@ -359,7 +379,7 @@ def erg_expr(e):
     if k == "not":
         return f"(not {erg_expr(e[1])})"
     if k == "if":
-        return f"(if {erg_expr(e[1])}, do {erg_expr(e[2])}, do {erg_expr(e[3])})"
+        return f"if({erg_expr(e[1])}, do({erg_expr(e[2])}), do({erg_expr(e[3])}))"
     if k == "len":
         return f"len({erg_expr(e[1])})"
     if k == "index":
@@ -382,7 +402,7 @@ def erg_stmts(stmts, ind=0):
             ann = f": {erg_ty(s[2])}" if s[4] else ""
             out.append(f"{p}{s[1]}{ann} = {erg_expr(s[3])}")
         elif k == "print":
-            out.append(f"{p}print! " + ", ".join(erg_expr(x) for x in s[1]))
+            out.append(f"{p}print!(" + ", ".join(erg_expr(x) for x in s[1]) + ")")
         elif k == "func":
             params = ", ".join(f"{n}: {erg_ty(t)}" for n, t in s[2])
             out.append(f"{p}{s[1]}({params}): {erg_ty(s[3])} =")
@@ -399,13 +419,15 @@ def erg_stmts(stmts, ind=0):
             out += erg_stmts(s[3], ind + 1)
             out.append(f"{p}    {s[1]}.dec!()")
         elif k == "ifstmt":
-            out.append(f"{p}if! {erg_expr(s[1])}:")
+            out.append(f"{p}if! {erg_top(s[1])}:")
             out.append(f"{p}    do!:")
             out += erg_stmts(s[2], ind + 2)
             out.append(f"{p}    do!:")
             out += erg_stmts(s[3], ind + 2)
         elif k == "tupdef":
             out.append(f"{p}({', '.join(n for n, _ in s[1])}) = ({', '.join(erg_expr(x) for x in s[2])})")
+        elif k == "exprstmt":
+            out.append(f"{p}{erg_top(s[1])}")
         else:
             raise ValueError(s)
     return out
@@ -487,6 +509,8 @@ def py_stmts(stmts, ind=0):
             out += py_stmts(s[3], ind + 1)
         elif k == "tupdef":
             out.append(f"{p}({', '.join(n for n, _ in s[1])}) = ({', '.join(py_expr(x) for x in s[2])})")
+        elif k == "exprstmt":
+            out.append(f"{p}{py_expr(s[1])}")
         else:
             raise ValueError(s)
     return out
